@@ -7,4 +7,5 @@ CONSTANTS
   MaxMut = 0
   GenMode = "none"
 CONSTRAINT Done
+VIEW MView
 CHECK_DEADLOCK FALSE
